@@ -266,10 +266,24 @@ func RunCase(t *testing.T, c *Case, work, sched *choice.Source, st *Stats) (fs [
 	if work.Chance(1, 6) {
 		minSamples = numSamples + 1 + work.Intn(100)
 	}
+	// an image with more than 65536 pixels along one axis (two pixels across): one
+	// sample per pixel, scheduling points thinned to every 64th
+	huge := false
+	if aa == 0 && work.Chance(1, 300) {
+		huge = true
+		w, h = 65537+work.Intn(80), 2
+		if work.Chance(1, 2) {
+			w, h = h, w
+		}
+		obj.w, obj.h = w, h
+		numSamples, minSamples = 1+work.Intn(2), 0
+		obj.yieldEvery = 0
+		st.probe("image with more than 65536 pixels along one axis")
+	}
 	// a bounded scene (only without antialiasing, where rays are attributed exactly):
 	// a floor slab under the camera or a wall beside it - the box does not contain
 	// the camera but reaches behind the camera plane
-	if aa == 0 && work.Chance(1, 5) {
+	if aa == 0 && !huge && work.Chance(1, 5) {
 		obj.bounded = true
 		switch work.Intn(3) {
 		case 0:
@@ -283,7 +297,7 @@ func RunCase(t *testing.T, c *Case, work, sched *choice.Source, st *Stats) (fs [
 	}
 	// deep sampling on a tiny image: hundreds to thousands of samples per pixel,
 	// so that anything the estimator does per batch of samples is crossed
-	if work.Chance(1, 10) {
+	if !huge && work.Chance(1, 10) {
 		numSamples = 65 + work.Intn(2000)
 		if work.Chance(1, 2) {
 			numSamples = []int{127, 128, 129, 255, 256, 257, 511, 512, 513, 1023, 1024, 1025, 2047, 2048, 2049}[work.Intn(15)]
@@ -340,7 +354,11 @@ func RunCase(t *testing.T, c *Case, work, sched *choice.Source, st *Stats) (fs [
 		names[renderer], w, h, workers, numSamples, minSamples, maxStddev, oversat, convKind, aa, obj.stream, logf)
 	hasConv := renderer != 2 && minSamples != 0 && (maxStddev != 0 || conv != nil)
 	runtime.GOMAXPROCS(gmp)
-	res := simsched.Run(t, simsched.Config{Src: sched, Sticky: sticky, Knobs: map[string]int{"render.workers": workers}}, func() {
+	knobs := map[string]int{"render.workers": workers}
+	if huge {
+		knobs["hook.stride"], knobs["auto.stride"] = 64, 64
+	}
+	res := simsched.Run(t, simsched.Config{Src: sched, Sticky: sticky, Knobs: knobs}, func() {
 		switch renderer {
 		case 0, 1:
 			(&render3d.RecursiveRayTracer{Camera: cam, MaxDepth: 0, NumSamples: numSamples, MinSamples: minSamples, MaxStddev: maxStddev,
